@@ -225,7 +225,8 @@ fn run_long(c: &LongCase, st: &mut Stats) -> CaseResult {
 					Exp::Val(e, _) => {
 						// the allowance is evaluated at the true position t of the stream
 						let g = match name {
-							"HMA" | "LinReg" => 4.0,
+							"HMA" => 6.0,
+							"LinReg" => 4.0,
 							"TRIMA" | "MeanAbsDev" | "MedianAbsDev" => 2.0,
 							"Integral" | "LinearVolatility" => n as f64,
 							_ => 1.0,
